@@ -380,9 +380,21 @@ class CompositeConfigParser(ConfigFileParser):
             if hasattr(p, 'set_known_keys'):
                 p.set_known_keys(keys)
 
+    def _parsers_for(self, stream:TextIO) -> List[ConfigFileParser]:
+        """
+        The parsers to try for this file, in order.
+
+        The text of a simple INI file is often valid TOML as well (C{version = 1.10}, C{name = 'a\\b'}),
+        but with another meaning, so a file called C{*.ini} or C{*.cfg} is read as INI in the first place.
+        """
+        name = getattr(stream, 'name', None)
+        if isinstance(name, str) and name.lower().endswith(('.ini', '.cfg')):
+            return sorted(self.parsers, key=lambda p: not isinstance(p, IniConfigParser))
+        return self.parsers
+
     def parse(self, stream:TextIO) -> Dict[str, Any]:
         errors = []
-        for p in self.parsers:
+        for p in self._parsers_for(stream):
             try:
                 return p.parse(stream) # type: ignore[no-any-return]
             except Exception as e:
